@@ -9,6 +9,7 @@ import (
 	"time"
 
 	"Havoc/pkg/agent"
+	"Havoc/pkg/verifhook"
 
 	"vcheck/refdemon"
 	"vcheck/world"
@@ -98,6 +99,43 @@ func (t *pfTarget) shutdown() {
 	t.mu.Unlock()
 }
 
+// pfGate holds one socket's reader goroutine at the hook point between its read and what it does with the result.
+type pfGate struct {
+	mu       sync.Mutex
+	arrivals int
+	open     bool
+	ch       chan struct{}
+}
+
+func (g *pfGate) arrive() {
+	g.mu.Lock()
+	g.arrivals++
+	open := g.open
+	g.mu.Unlock()
+	if !open {
+		<-g.ch
+	}
+}
+func (g *pfGate) count() int { g.mu.Lock(); defer g.mu.Unlock(); return g.arrivals }
+func (g *pfGate) release() {
+	select {
+	case g.ch <- struct{}{}:
+	case <-time.After(2 * time.Second):
+	}
+}
+func (g *pfGate) openAll() {
+	g.mu.Lock()
+	g.open = true
+	g.mu.Unlock()
+	for {
+		select {
+		case g.ch <- struct{}{}:
+		default:
+			return
+		}
+	}
+}
+
 var pfChunks = map[string][]byte{"a": pattern(10, 0x11), "B": pattern(70000, 0x22), "x": pattern(12, 0x33), "Y": pattern(50000, 0x44)}
 
 // labelsOf reads a byte stream as a concatenation of known chunks (each chunk has its own byte pattern): the labels
@@ -145,6 +183,8 @@ func RunPortFwd(behs [][]Step, tr *Trace, env Env, sum *Summary) {
 	must(err)
 	defer w.Close()
 	names := []string{"s1", "s2", "s3"}
+	gated := env.Mode == "gated"
+	defer func() { verifhook.HookN = nil }()
 	nextID := uint32(0x3100_0000) + uint32(env.Shard)<<20
 	for bi, beh := range behs {
 		nextID++
@@ -162,11 +202,33 @@ func RunPortFwd(behs [][]Step, tr *Trace, env Env, sum *Summary) {
 			sock[n] = pfSock + uint32(i) + 1
 			bySock[int(sock[n])] = n
 		}
-		upSent := map[string][]string{}   // chunks the agent sent per socket (accepted or not)
-		wrote := map[string][]string{}    // chunks the target wrote per socket
-		agentGot := map[string][]byte{}   // bytes handed to the agent in write tasks per socket
-		atold := []string{}               // sockets the agent was told to close
-		lastOn := map[string]string{}     // last target-side op per socket (what a Reader turn has to wait for)
+		gate := map[string]*pfGate{}
+		released := map[string]int{} // arrivals at the gate that have been let through, per socket
+		for _, n := range names {
+			gate[n] = &pfGate{ch: make(chan struct{})}
+		}
+		if gated {
+			cur := gate
+			verifhook.HookN = func(name string, n int) {
+				if name != "portfwd.read" {
+					return
+				}
+				if g := cur[bySock[n]]; g != nil {
+					g.arrive()
+				}
+			}
+		}
+		// waitArrival: the reader of s is (or comes) back at the gate with something it has not acted upon
+		waitArrival := func(s string) {
+			end := time.Now().Add(2 * time.Second)
+			for gate[s].count() <= released[s] && time.Now().Before(end) {
+				time.Sleep(time.Millisecond)
+			}
+		}
+		upSent := map[string][]string{} // chunks the agent sent per socket (accepted or not)
+		wrote := map[string][]string{}  // chunks the target wrote per socket
+		agentGot := map[string][]byte{} // bytes handed to the agent in write tasks per socket
+		atold := []string{}             // sockets the agent was told to close
 		wedged := false
 		callback := func(si int, op string, b *refdemon.Buf) {
 			r := w.RequestWith(refdemon.Packages(id, k, []refdemon.Sub{{Cmd: refdemon.CmdSocket, Req: 0, Body: b.B}}), 10*time.Second)
@@ -289,7 +351,7 @@ func RunPortFwd(behs [][]Step, tr *Trace, env Env, sum *Summary) {
 				time.Sleep(3 * time.Millisecond)
 			}
 		}
-		tr.Emit(map[string]any{"ev": "Reset"})
+		tr.Emit(map[string]any{"ev": "Reset", "gated": gated})
 		for si, o := range beh {
 			if wedged {
 				break
@@ -316,7 +378,6 @@ func RunPortFwd(behs [][]Step, tr *Trace, env Env, sum *Summary) {
 				}
 			case "TargetWrite":
 				wrote[s] = append(wrote[s], c)
-				lastOn[s] = "write"
 				t := tg[s]
 				t.mu.Lock()
 				cn := t.conn
@@ -325,8 +386,10 @@ func RunPortFwd(behs [][]Step, tr *Trace, env Env, sum *Summary) {
 					cn.SetWriteDeadline(time.Now().Add(5 * time.Second))
 					cn.Write(pfChunks[c])
 				}
+				if w, _ := o["w"].(bool); gated && w {
+					waitArrival(s)
+				}
 			case "TargetClose":
-				lastOn[s] = "close"
 				t := tg[s]
 				t.mu.Lock()
 				if t.conn != nil {
@@ -334,16 +397,69 @@ func RunPortFwd(behs [][]Step, tr *Trace, env Env, sum *Summary) {
 					t.conn.Close()
 				}
 				t.mu.Unlock()
+				if w, _ := o["w"].(bool); gated && w {
+					waitArrival(s)
+				}
 			case "Reader":
-				// the reader goroutine's turn cannot be commanded: wait until its effect is there (or give up after 3 s and
-				// record what is there)
-				if lastOn[s] == "write" {
+				if gated {
+					// let the reader act on what it holds; a chunk that came in several reads needs several turns
+					want := 0
+					if dl, ok := o["d"].([]any); ok {
+						for _, l := range dl {
+							want += len(pfChunks[l.(string)])
+						}
+					}
+					_, n0 := queued()
+					base := len(agentGot[s]) + n0[s]
+					what := o.Str("what")
+					end := time.Now().Add(3 * time.Second)
+					if gate[s].count() <= released[s] {
+						waitArrival(s)
+					}
+					released[s]++
+					gate[s].release()
+					for {
+						// the reader queues before it reads again: once it is seen back at the gate its last turn's effect is there
+						back := gate[s].count() > released[s]
+						done := false
+						switch what {
+						case "data":
+							_, n := queued()
+							done = len(agentGot[s])+n[s]-base >= want
+						case "eof":
+							done = !listed(s)
+						default:
+							done = true
+						}
+						if done || time.Now().After(end) {
+							break
+						}
+						if back { // a chunk that came in several reads: the rest needs another turn
+							released[s]++
+							gate[s].release()
+						}
+						time.Sleep(time.Millisecond)
+					}
+					if what == "eof" {
+						time.Sleep(5 * time.Millisecond) // the close task is queued right after the entry is dropped
+					}
+					if w, _ := o["w"].(bool); w {
+						waitArrival(s)
+					} else {
+						time.Sleep(3 * time.Millisecond)
+					}
+					break
+				}
+				// without the gate the reader goroutine's turn cannot be commanded: wait until its effect is there (or give
+				// up after 3 s and record what is there)
+				switch o.Str("what") {
+				case "data":
 					want := 0
 					for _, l := range wrote[s] {
 						want += len(pfChunks[l])
 					}
 					until(3*time.Second, func() bool { _, n := queued(); return len(agentGot[s])+n[s] >= want })
-				} else {
+				case "eof":
 					until(3*time.Second, func() bool { return !listed(s) })
 					time.Sleep(5 * time.Millisecond) // the close task is queued right after the entry is dropped
 				}
@@ -354,6 +470,9 @@ func RunPortFwd(behs [][]Step, tr *Trace, env Env, sum *Summary) {
 				callback(si, op, b)
 				if had {
 					until(1500*time.Millisecond, func() bool { _, side := tg[s].snapshot(); return side != "open" })
+				}
+				if w, _ := o["w"].(bool); gated && w {
+					waitArrival(s)
 				}
 			case "CheckIn":
 				r := w.RequestWith(refdemon.CheckIn(id, k), 10*time.Second)
@@ -387,6 +506,9 @@ func RunPortFwd(behs [][]Step, tr *Trace, env Env, sum *Summary) {
 			tr.Emit(ev)
 		}
 		// leave nothing running for this agent
+		for _, n := range names {
+			gate[n].openAll()
+		}
 		if !wedged {
 			for _, n := range names {
 				a.PortFwdClose(int(sock[n]))
